@@ -83,7 +83,7 @@ pub fn build_head(p: &H1Plan) -> Vec<u8> {
     if p.host_header_first {
         lines.push(host_line.clone());
     }
-    lines.push(format!("{}: {}", n("Proxy-Authorization"), basic_auth("u0", "p0")));
+    lines.push(format!("{}: {}", n("Proxy-Authorization"), basic_auth("u0", "p0-secret-password")));
     if p.kind == Kind::Plain {
         lines.push(format!("{}: {}", n("Content-Length"), p.payload_len));
     }
